@@ -613,7 +613,7 @@ func corpusC04() []*Bundle {
 func init() {
 	register(&Property{
 		ID: "C04", Race: true, Plain: true, Level: "exploration",
-		Rule:   "cases = rapid-generated logical joins (two aliased tables of 0-6 rows, 1-3 key column pairs of one scalar kind each with duplicate keys and per-side column names in arbitrary order, ON = tree of 1-4 column-to-column comparisons over = != < <= > >= joined by AND/OR with either orientation, join type inner/left/right; tables of different Go numeric types and magnitudes >= 1e6; now and then 66-140 distinct keys; a third of the cases issue a possibly failing prelude join first) plus a fixed corpus; each logical join is executed once per strategy spelling of its type (8-10 spellings: automatic, HASH_JOIN, STRAIGHT_JOIN, PARALLEL variants), PARALLEL spellings in a -race child under four schedule/map-order configurations (drawn, walk, pct, sync); every execution is compared as a multiset with a textbook nested-loop join computed by the driver; non-trivial = >=2 tasks runnable at some yield or a non-identity map order was applied; distinct = distinct case-file hash; one case in eight names the key columns alike on both sides and writes the equi-conjunction as USING (c1, ..) under every spelling the grammar allows; key names that need quoting, names with upper-case letters and paths into nested objects; fractions against Go ints and the negative zero",
+		Rule:   "cases = rapid-generated logical joins (two aliased tables of 0-6 rows, 1-3 key column pairs of one scalar kind each with duplicate keys and per-side column names in arbitrary order, ON = tree of 1-4 column-to-column comparisons over = != < <= > >= joined by AND/OR with either orientation, join type inner/left/right; tables of different Go numeric types and magnitudes >= 1e6; now and then 66-140 distinct keys; a third of the cases issue a possibly failing prelude join first) plus a fixed corpus; each logical join is executed once per strategy spelling of its type (8-10 spellings: automatic, HASH_JOIN, STRAIGHT_JOIN, PARALLEL variants), PARALLEL spellings in a -race child under four schedule/map-order configurations (drawn, walk, pct, sync); every execution is compared as a multiset with a textbook nested-loop join computed by the driver; non-trivial = >=2 tasks runnable at some yield or a non-identity map order was applied; distinct = distinct case-file hash; one case in eight names the key columns alike on both sides and writes the equi-conjunction as USING (c1, ..) under every spelling the grammar allows; key names that need quoting, names with upper-case letters and paths into nested objects; fractions against Go ints and the negative zero; a quoted key inside a join-column path; either or both sides a derived table",
 		Corpus: corpusC04, Gen: genC04, Eval: evalC04, QuickChecks: 30,
 		Assumptions: []string{
 			"each key column pair holds one scalar kind (number or string) and no NULLs: the statement fixes nothing about cross-kind or NULL key comparison",
